@@ -100,9 +100,11 @@ def obligations(tier):
     for cls in drivers.COND_CLASSES:
         for ctx in ("1", "n"):
             obs.append(condition_on_x_ob(prog, cls, ctx))
+    from .common import endpoint_contiguity_ob
+    obs.append(endpoint_contiguity_ob(model.load(), "indexlist"))
     return obs
 
 
-FLOORS = {"group:condition_on": 8, "group:condition_on_x": 8}
+FLOORS = {"group:condition_on": 8, "group:condition_on_x": 8, "group:indexlist": 1}
 LEVEL = "proof"
 EXPLANATION = "condition_on / condition_on_explicit against the information-form conditioning formulas with generic index sets; condition_on_x of every conditional class against N(Mx+b, Sigma) in layout r*N+n."
